@@ -144,3 +144,185 @@ Proof.
   destruct (ustr_eqb (q_method r) (str "GET")) eqn:Eg; [reflexivity|].
   unfold body, body_bytes. rewrite Eg, Eb. rewrite parse_qsl_enc_pairs by exact Hform. apply pairs_eqb_refl.
 Qed.
+
+(* ---------- from the user-level predicate wf_request to wf_core ---------- *)
+Definition wf_endpoint (host : ustr) (port : N) : bool := field_ok (str "Host", host ++ 58 :: dec_str port).
+
+Lemma hget_hset_other : forall h k v lk, ustr_eqb (lower k) lk = false -> hget (hset h k v) lk = hget h lk.
+Proof.
+  induction h as [|[k' v'] h IH]; intros k v lk H.
+  - cbn [hset hget]. now rewrite H.
+  - cbn [hset]. destruct (ustr_eqb (lower k') (lower k)) eqn:E.
+    + apply ustr_eqb_eq in E. cbn [hget]. rewrite E, H. reflexivity.
+    + cbn [hget]. now rewrite IH.
+Qed.
+
+Lemma existsb_hset (P : ustr * ustr -> bool) : forall h k v,
+  existsb P h = false -> P (k, v) = false -> existsb P (hset h k v) = false.
+Proof.
+  induction h as [|[k' v'] h IH]; intros k v Hh Hk.
+  - cbn. now rewrite Hk.
+  - cbn [existsb] in Hh. apply orb_false_iff in Hh. destruct Hh as [H1 H2].
+    cbn [hset]. destruct (ustr_eqb (lower k') (lower k)); cbn [existsb].
+    + now rewrite Hk, H2.
+    + rewrite H1. cbn [orb]. now apply IH.
+Qed.
+
+Lemma distinct_keys_hset : forall h k v, distinct_keys h = true -> distinct_keys (hset h k v) = true.
+Proof.
+  induction h as [|[k' v'] h IH]; intros k v H; [reflexivity|].
+  cbn [distinct_keys] in H. apply andb_true_iff in H. destruct H as [H1 H2]. apply negb_true_iff in H1.
+  cbn [hset]. destruct (ustr_eqb (lower k') (lower k)) eqn:E.
+  - apply ustr_eqb_eq in E. cbn [distinct_keys]. rewrite <- E, H1, H2. reflexivity.
+  - cbn [distinct_keys]. rewrite IH by exact H2. rewrite andb_true_r. apply negb_true_iff.
+    apply existsb_hset; [exact H1|]. cbn [fst]. now rewrite ustr_eqb_sym.
+Qed.
+
+Lemma forallb_hset (P : ustr * ustr -> bool) : forall h k v,
+  forallb P h = true -> P (k, v) = true -> forallb P (hset h k v) = true.
+Proof.
+  induction h as [|[k' v'] h IH]; intros k v Hh Hk.
+  - cbn. now rewrite Hk.
+  - cbn [forallb] in Hh. apply andb_true_iff in Hh. destruct Hh as [H1 H2].
+    cbn [hset]. destruct (ustr_eqb (lower k') (lower k)); cbn [forallb].
+    + now rewrite Hk, H2.
+    + rewrite H1. now apply IH.
+Qed.
+
+Lemma hget_none_existsb : forall l k, hget l (lower k) = None ->
+  existsb (fun kv => ustr_eqb (lower (fst kv)) (lower k)) l = false.
+Proof.
+  induction l as [|[k' v'] l IH]; intros k H; [reflexivity|].
+  cbn [hget] in H. cbn [existsb fst]. destruct (ustr_eqb (lower k') (lower k)); [discriminate|]. now apply IH.
+Qed.
+
+Lemma distinct_cons k v l : hget l (lower k) = None -> distinct_keys l = true -> distinct_keys ((k, v) :: l) = true.
+Proof. intros H1 H2. cbn [distinct_keys]. now rewrite hget_none_existsb, H2. Qed.
+
+Definition hdr_ok (nv : ustr * ustr) : bool := wf_hname (fst nv) && wf_hvalue (snd nv).
+
+Lemma digits_hvalue s : forallb is_digit s = true -> wf_hvalue s = true.
+Proof.
+  intros H. unfold wf_hvalue. eapply forallb_impl; [|exact H]. intros c Hc. unfold is_digit in Hc.
+  unfold mem_n. cbn [existsb]. lia.
+Qed.
+
+(* invariants of a header list while build prepends its own fields *)
+Record hinv (l : list (ustr * ustr)) : Prop := {
+  hi_fields : forallb field_ok l = true;
+  hi_dist : distinct_keys l = true }.
+
+Lemma hinv_cons k v l : field_ok (k, v) = true -> hget l (lower k) = None -> hinv l -> hinv ((k, v) :: l).
+Proof.
+  intros Hf Hn [H1 H2]. split.
+  - cbn [forallb]. now rewrite Hf, H1.
+  - now apply distinct_cons.
+Qed.
+
+Lemma hget_cons k v l lk : hget ((k, v) :: l) lk = if ustr_eqb (lower k) lk then Some v else hget l lk.
+Proof. reflexivity. Qed.
+
+Theorem wf_request_core host port r :
+  wf_request r = true -> wf_endpoint host port = true -> wf_core host port r = true.
+Proof.
+  unfold wf_request. intros H Hep.
+  repeat (apply andb_true_iff in H; destruct H as [H ?]).
+  rename H into Hm, H12 into Hpath, H11 into Hq, H10 into Hqd, H9 into Hhdr, H8 into Hdist, H7 into Hte,
+         H6 into Hcl, H5 into Hform, H4 into Hne, H3 into Hstart, H2 into Hlines, H1 into Hcount, H0 into Hbody.
+  set (hs := final_headers r) in *. set (body := body_bytes r) in *.
+  assert (Hhs_ok : forallb hdr_ok hs = true).
+  { unfold hs, final_headers. destruct (ustr_eqb (q_method r) (str "GET")); [exact Hhdr|].
+    destruct (q_body r); [exact Hhdr| |]; (apply forallb_hset; [exact Hhdr|reflexivity]). }
+  assert (Hhs_d : distinct_keys hs = true).
+  { unfold hs, final_headers. destruct (ustr_eqb (q_method r) (str "GET")); [exact Hdist|].
+    destruct (q_body r); [exact Hdist| |]; now apply distinct_keys_hset. }
+  assert (Hother : forall lk, ustr_eqb (str "content-type") lk = false -> hget hs lk = hget (q_headers r) lk).
+  { intros lk Hlk. unfold hs, final_headers. destruct (ustr_eqb (q_method r) (str "GET")); [reflexivity|].
+    destruct (q_body r); [reflexivity| |]; now apply hget_hset_other. }
+  assert (Hfields : forallb field_ok hs = true).
+  { apply forallb_forall. intros nv Hin. unfold field_ok.
+    rewrite forallb_forall in Hhs_ok, Hlines. specialize (Hhs_ok nv Hin). specialize (Hlines nv Hin).
+    unfold hdr_ok in Hhs_ok. now rewrite Hhs_ok, Hlines. }
+  apply N.ltb_lt in Hbody.
+  destruct (dec_str_spec (blen body) Hbody) as [_ [Hdd [Hdl _]]].
+  assert (Hb40 : (blen body <? 10 ^ 40) = true) by now apply N.ltb_lt.
+  clear Hbody. remember (10 ^ 40) as big eqn:Ebig.
+  assert (Hclf : field_ok (str "Content-Length", dec_str (blen body)) = true).
+  { unfold field_ok. cbn [fst snd]. rewrite digits_hvalue by exact Hdd.
+    change (wf_hname (str "Content-Length")) with true. cbn [andb].
+    apply N.leb_le. unfold pack_header, MAXL. unfold blen at 1. rewrite !app_length.
+    change (List.length (title (str "Content-Length"))) with 14%nat. cbn [List.length]. clear - Hdl. lia. }
+  unfold has_header in Hte. apply negb_true_iff in Hte.
+  assert (Hte' : hget hs (str "transfer-encoding") = None).
+  { rewrite Hother by reflexivity. destruct (hget (q_headers r) (str "transfer-encoding")); [discriminate|reflexivity]. }
+  (* stage 3: Content-Length *)
+  set (o3 := if negb (is_nil body) && negb (has_header hs "content-length")
+             then [(str "Content-Length", dec_str (blen body))] else []).
+  set (l3 := o3 ++ hs).
+  assert (I3 : hinv l3 /\ hget l3 (str "transfer-encoding") = None
+               /\ hget l3 (str "host") = hget hs (str "host")
+               /\ hget l3 (str "accept-encoding") = hget hs (str "accept-encoding")
+               /\ (match hget l3 (str "content-length") with
+                    | None => is_nil body | Some v => ustr_eqb v (dec_str (blen body)) end = true)
+               /\ (List.length l3 <= List.length hs + 1)%nat).
+  { unfold l3, o3, has_header. destruct (hget hs (str "content-length")) as [v|] eqn:E3.
+    - rewrite andb_false_r. cbn [app].
+      split; [split; assumption|]. split; [exact Hte'|]. split; [reflexivity|]. split; [reflexivity|].
+      split; [|clear; lia]. rewrite E3. exact Hcl.
+    - destruct (is_nil body) eqn:E4; cbn [negb andb app].
+      + split; [split; assumption|]. split; [exact Hte'|]. split; [reflexivity|]. split; [reflexivity|].
+        split; [|clear; lia]. rewrite E3. reflexivity.
+      + split; [apply hinv_cons; [exact Hclf|exact E3|split; assumption]|].
+        split; [rewrite hget_cons; exact Hte'|]. split; [reflexivity|]. split; [reflexivity|].
+        split; [|cbn [List.length]; clear; lia].
+        rewrite hget_cons. change (ustr_eqb (lower (str "Content-Length")) (str "content-length")) with true.
+        cbv iota. apply ustr_eqb_refl. }
+  destruct I3 as [[F3 D3] [T3 [Hh3 [Ha3 [C3 L3]]]]].
+  (* stage 2: Accept-Encoding *)
+  set (o2 := if has_header (q_headers r) "accept-encoding" then [] else [(str "Accept-Encoding", str "identity")]).
+  set (l2 := o2 ++ l3).
+  assert (I2 : hinv l2 /\ hget l2 (str "transfer-encoding") = None
+               /\ hget l2 (str "host") = hget hs (str "host")
+               /\ (match hget l2 (str "content-length") with
+                    | None => is_nil body | Some v => ustr_eqb v (dec_str (blen body)) end = true)
+               /\ (List.length l2 <= List.length hs + 2)%nat).
+  { unfold l2, o2, has_header. rewrite <- (Hother (str "accept-encoding")) by reflexivity. rewrite <- Ha3.
+    destruct (hget l3 (str "accept-encoding")) eqn:E2; cbn [app].
+    - split; [split; assumption|]. split; [exact T3|]. split; [exact Hh3|]. split; [exact C3|]. clear - L3. clearbody l3 hs. lia.
+    - split; [apply hinv_cons; [reflexivity|exact E2|split; assumption]|].
+      split; [rewrite hget_cons; exact T3|]. split; [rewrite hget_cons; exact Hh3|].
+      split; [rewrite hget_cons; exact C3|]. cbn [List.length]. clear - L3. clearbody l3 hs. lia. }
+  destruct I2 as [[F2 D2] [T2 [Hh2 [C2 L2]]]].
+  (* stage 1: Host *)
+  set (o1 := if has_header (q_headers r) "host" then [] else [(str "Host", host ++ 58 :: dec_str port)]).
+  set (l1 := o1 ++ l2).
+  assert (I1 : hinv l1 /\ hget l1 (str "transfer-encoding") = None
+               /\ (match hget l1 (str "content-length") with
+                    | None => is_nil body | Some v => ustr_eqb v (dec_str (blen body)) end = true)
+               /\ (List.length l1 <= List.length hs + 3)%nat).
+  { unfold l1, o1, has_header. rewrite <- (Hother (str "host")) by reflexivity. rewrite <- Hh2.
+    destruct (hget l2 (str "host")) eqn:E1; cbn [app].
+    - split; [split; assumption|]. split; [exact T2|]. split; [exact C2|].
+      eapply Nat.le_trans; [exact L2|]. apply Nat.add_le_mono_l. repeat constructor.
+    - split; [apply hinv_cons; [exact Hep|exact E1|split; assumption]|].
+      split; [rewrite hget_cons; exact T2|]. split; [rewrite hget_cons; exact C2|].
+      cbn [List.length]. apply le_n_S in L2. eapply Nat.le_trans; [exact L2|].
+      rewrite <- Nat.add_succ_r. apply Nat.le_refl. }
+  destruct I1 as [[F1 D1] [T1 [C1 L1]]].
+  assert (Eall : all_headers host port r = l1) by reflexivity.
+  unfold wf_core. rewrite Eall. fold body.
+  rewrite Hm, Hpath, Hstart, F1, D1. unfold has_header. rewrite T1, C1.
+  change (forallb pair_ok (q_qargs r)) with (forallb (fun kv => text_ok (fst kv) && text_ok (snd kv)) (q_qargs r)).
+  rewrite Hq. cbn [andb negb].
+  rewrite <- Ebig, Hb40.
+  assert (Hform' : match q_body r with Form f => forallb pair_ok f | _ => true end = true).
+  { destruct (q_body r); try reflexivity. apply andb_true_iff in Hform. destruct Hform as [Hf _].
+    apply andb_true_iff in Hf. destruct Hf as [Hf _]. exact Hf. }
+  rewrite Hform'. rewrite !andb_true_r.
+  apply Nat.leb_le. apply N.leb_le in Hcount. unfold MAXH in Hcount. fold hs in Hcount. clear - Hcount L1. clearbody l1 hs. unfold ustr in *. lia.
+Qed.
+
+(* the general statement *)
+Theorem roundtrip_general o host port r :
+  wf_request r = true -> wf_endpoint host port = true -> roundtrip o host port r = true.
+Proof. intros H1 H2. apply roundtrip_core. now apply wf_request_core. Qed.
